@@ -131,6 +131,7 @@ type FuncCtx struct {
 	inlineStack   []string // repository functions without a contract being executed in place
 	notes         []string
 	renamed       map[*types.Var]bool
+	rangeAlias    map[string]*types.Var // range_i / range_iN -> counting variable of a for loop
 	nameAlias     map[string]*types.Var // contract name -> variable, for variables renamed since the contract was written
 	concats       [][3]string           // string concatenations (result, left, right) for the JSON-safety facts
 }
